@@ -37,8 +37,12 @@ open PwVerif PwVerif.Exec PwVerif.Recovery
 def Cut (cfg : Cfg) (d : Dag) (s : S) : Prop := ∃ acts, runActs cfg d (init d) acts = some s
 
 /-- file written at the cut, loaded, flags cleared, cause removed, run again: any state of that run -/
+def ResumedC (rc : RCfg) (T : Nat → Bool) (fx : Fix) (cfg : Cfg) (d : Dag) (s : S) (rs : RS) : Prop :=
+  ∃ acts, rrunActs fx cfg d (resumeFromC rc T d s) acts = some rs
+
+/-- … for a level whose children are all function nodes (`T i`: child `i` is itself a composite) -/
 def Resumed (rc : RCfg) (fx : Fix) (cfg : Cfg) (d : Dag) (s : S) (rs : RS) : Prop :=
-  ∃ acts, rrunActs fx cfg d (resumeFrom rc d s) acts = some rs
+  ResumedC rc (fun _ => false) fx cfg d s rs
 
 /-- the side conditions under which the restored graph can be trusted -/
 structure Sound (rc : RCfg) (fx : Fix) (d : Dag) (s : S) (A : Nat → Bool) : Prop where
@@ -47,26 +51,26 @@ structure Sound (rc : RCfg) (fx : Fix) (d : Dag) (s : S) (A : Nat → Bool) : Pr
   affected : Affected fx d A
   tight    : (∀ i, fx.dirty i = false) → ∀ i, A i = false
 
-theorem resumed_inv {rc fx cfg d s rs A} (wf : WF d) (hc : Cut cfg d s) (hs : Sound rc fx d s A)
-    (hr : Resumed rc fx cfg d s rs) :
+theorem resumed_inv {rc fx cfg d s rs A T} (wf : WF d) (hc : Cut cfg d s) (hs : Sound rc fx d s A)
+    (hr : ResumedC rc T fx cfg d s rs) :
     SnapOK fx d (startReceived rc s) (kept s A) ∧
-    RInv fx d (startReceived rc s) (kept s A) (doneAt s) rs := by
+    RInv fx d (startReceived rc s) (kept s A) (doneAt s) T rs := by
   obtain ⟨acts, ha⟩ := hc
   obtain ⟨racts, hra⟩ := hr
   have hinv := runActs_inv cfg d wf acts _ _ (init_inv cfg d wf) ha
   have hargs := runActs_argsInv cfg d acts _ _ (init_argsInv d) ha
   have hok := snapOK_of_cut (rc := rc) hinv.core hs.affected hs.triggers hs.tight
   exact ⟨hok, rrunActs_inv cfg hok wf racts _ _
-    (resume_inv rc fx A wf hinv hargs hs.cache hs.affected hs.triggers hs.tight) hra⟩
+    (resume_inv rc fx A T wf hinv hargs hs.cache hs.affected hs.triggers hs.tight) hra⟩
 
 /-! ## (b) the resumed run ends where an uninterrupted run ends -/
 
 /-- when the resumed run has returned, every child has run and holds the value of the plain
 composition: its function (with its own inputs as they are after the fix) applied to the first
 connection of every input -/
-theorem C08_resume_equations {rc fx cfg d s rs A} (wf : WF d) (rank : Nat → Nat)
+theorem C08_resume_equations {rc fx cfg d s rs A T} (wf : WF d) (rank : Nat → Nat)
     (hrank : ∀ i j, j ∈ d.deps i → rank j < rank i) (hc : Cut cfg d s) (hs : Sound rc fx d s A)
-    (hr : Resumed rc fx cfg d s rs) (hex : rs.s.phase = .exited) (i : Nat) (hm : d.member i) :
+    (hr : ResumedC rc T fx cfg d s rs) (hex : rs.s.phase = .exited) (i : Nat) (hm : d.member i) :
     rs.s.st i = .done ∧ rs.s.out i = .app (fx.sym i) (headArgs d rs.s.out i) := by
   obtain ⟨hok, hinv⟩ := resumed_inv wf hc hs hr
   have hd := rexit_all_done wf rs hinv rank hrank hex i hm
@@ -140,31 +144,34 @@ theorem C08_resume_same_end_changed {rc rc0 fx cfg cfg0 d s rs c A A0} (wf : WF 
 /-! ## (c) completed nodes are not executed again, the others are — exactly once -/
 
 /-- at every moment of the resumed run: the function of a node that had completed before the cut
-(and whose inputs are not touched by the fix) has not been called -/
-theorem C08_no_recall {rc fx cfg d s rs A} (wf : WF d) (hc : Cut cfg d s) (hs : Sound rc fx d s A)
-    (hr : Resumed rc fx cfg d s rs) (i : Nat) (hi : s.st i = .done) (ha : A i = false) :
-    rs.fcalls i = 0 :=
-  (resumed_inv wf hc hs hr).2.book.fcG i (by simp [kept, doneAt, hi, ha])
+(whose inputs are not touched by the fix; a function node, not a composite) has not been called -/
+theorem C08_no_recall {rc fx cfg d s rs A T} (wf : WF d) (hc : Cut cfg d s) (hs : Sound rc fx d s A)
+    (hr : ResumedC rc T fx cfg d s rs) (i : Nat) (hi : s.st i = .done) (ha : A i = false)
+    (ht : T i = false) : rs.fcalls i = 0 :=
+  (resumed_inv wf hc hs hr).2.book.fcG i (by simp [kept, doneAt, hi, ha]) ht
 
 /-- no function is ever called twice, and when the resumed run has returned every node that had NOT
 completed before the cut (the failed node, everything downstream of it, whatever was in flight) and
-every node that got new inputs has been executed exactly once -/
-theorem C08_rest_runs_once {rc fx cfg d s rs A} (wf : WF d) (rank : Nat → Nat)
+every node that got new inputs has been executed exactly once; a child that is a composite is always
+run again (its own children are protected by this very theorem one level down) -/
+theorem C08_rest_runs_once {rc fx cfg d s rs A T} (wf : WF d) (rank : Nat → Nat)
     (hrank : ∀ i j, j ∈ d.deps i → rank j < rank i) (hc : Cut cfg d s) (hs : Sound rc fx d s A)
-    (hr : Resumed rc fx cfg d s rs) :
+    (hr : ResumedC rc T fx cfg d s rs) :
     (∀ i, rs.fcalls i ≤ 1) ∧
-    (rs.s.phase = .exited → ∀ i, d.member i → (s.st i ≠ .done ∨ fx.dirty i = true) → rs.fcalls i = 1) := by
+    (rs.s.phase = .exited → ∀ i, d.member i → (s.st i ≠ .done ∨ fx.dirty i = true ∨ T i = true) →
+      rs.fcalls i = 1) := by
   obtain ⟨_, hinv⟩ := resumed_inv wf hc hs hr
   refine ⟨hinv.book.fcLe, ?_⟩
   intro hex i hm hi
   have hd := rexit_all_done wf rs hinv rank hrank hex i hm
-  rcases hi with hi | hi
+  rcases hi with hi | hi | hi
   · exact hinv.book.fcN i (by simp [doneAt, hi]) (by simp [hd])
   · exact hinv.book.fcD i hi (by simp [hd])
+  · exact hinv.book.fcT i hi (by simp [hd])
 
 /-- the resumed run never raises, nothing fails, and (when it has returned) nothing is left running -/
-theorem C08_resume_no_error {rc fx cfg d s rs A} (wf : WF d) (hc : Cut cfg d s) (hs : Sound rc fx d s A)
-    (hr : Resumed rc fx cfg d s rs) :
+theorem C08_resume_no_error {rc fx cfg d s rs A T} (wf : WF d) (hc : Cut cfg d s) (hs : Sound rc fx d s A)
+    (hr : ResumedC rc T fx cfg d s rs) :
     rs.s.errs = [] ∧ rs.s.phase ≠ .aborted ∧ (∀ i, rs.s.st i ≠ .failed) ∧
     (rs.s.phase = .exited → rs.s.running = [] ∧ rs.s.queue = []) := by
   obtain ⟨_, hinv⟩ := resumed_inv wf hc hs hr
@@ -175,16 +182,16 @@ theorem C08_resume_no_error {rc fx cfg d s rs A} (wf : WF d) (hc : Cut cfg d s) 
 
 /-- a node of the resumed run starts only when every node it takes data from holds its final output:
 produced in this run, or kept from before the cut and untouched by the fix -/
-theorem C08_resume_order {rc fx cfg d s rs A} (wf : WF d) (hc : Cut cfg d s) (hs : Sound rc fx d s A)
-    (hr : Resumed rc fx cfg d s rs) (i j : Nat) (hi : rs.s.st i ≠ .idle) (hj : j ∈ d.deps i) :
+theorem C08_resume_order {rc fx cfg d s rs A T} (wf : WF d) (hc : Cut cfg d s) (hs : Sound rc fx d s A)
+    (hr : ResumedC rc T fx cfg d s rs) (i j : Nat) (hi : rs.s.st i ≠ .idle) (hj : j ∈ d.deps i) :
     rs.s.st j = .done ∨ (s.st j = .done ∧ A j = false) := by
   rcases (resumed_inv wf hc hs hr).2.core.avail i j hi hj with h | h
   · exact Or.inl h
   · right; simpa [kept, doneAt] using h
 
 /-- until it has returned the resumed run can always take a step -/
-theorem C08_resume_progress {rc fx cfg d s rs A} (wf : WF d) (hc : Cut cfg d s) (hs : Sound rc fx d s A)
-    (hr : Resumed rc fx cfg d s rs) (r : List Nat) (hph : rs.s.phase = .run r) :
+theorem C08_resume_progress {rc fx cfg d s rs A T} (wf : WF d) (hc : Cut cfg d s) (hs : Sound rc fx d s A)
+    (hr : ResumedC rc T fx cfg d s rs) (r : List Nat) (hph : rs.s.phase = .run r) :
     ∃ a rs', rstep fx cfg d rs a = some rs' :=
   rprogress cfg rs (resumed_inv wf hc hs hr).2 r hph
 
@@ -206,7 +213,7 @@ theorem statement_of_sound {rc cfg}
   intro d s fx A rs rank wf hrank hA hA0 hc hr hex
   have hs := h d s fx A hc hA hA0
   exact ⟨fun i hm => (C08_resume_equations wf rank hrank hc hs hr hex i hm).2,
-    fun i hi ha => C08_no_recall wf hc hs hr i hi ha⟩
+    fun i hi ha => C08_no_recall wf hc hs hr i hi ha rfl⟩
 
 /-- REPAIRED code: every cut — recovery file or checkpoint, whatever is in flight — and every fix -/
 theorem C08_resume_repaired (cfg : Cfg) : ResumeStatement RCfg.repaired cfg :=
@@ -221,7 +228,7 @@ theorem C08_resume_now_partial {fx cfg d s rs A} (wf : WF d) (rank : Nat → Nat
     (∀ i, s.st i = .done → A i = false → rs.fcalls i = 0) := by
   have hs : Sound RCfg.now fx d s A := ⟨⟨Or.inr hquiet, Or.inl rfl⟩, Or.inl rfl, hA, hA0⟩
   exact ⟨fun i hm => (C08_resume_equations wf rank hrank hc hs hr hex i hm).2,
-    fun i hi ha => C08_no_recall wf hc hs hr i hi ha⟩
+    fun i hi ha => C08_no_recall wf hc hs hr i hi ha rfl⟩
 
 /-- the code as it is NOW: the RECOVERY file (written when the failed run has returned) always
 resumes to the same end — by C06 nothing is in flight when the loop has exited -/
@@ -243,7 +250,7 @@ theorem C08_resume_stale_partial {cfg d s rs} (wf : WF d) (rank : Nat → Nat)
   have hs : Sound RCfg.stale Fix.none d s (fun _ => false) :=
     ⟨⟨Or.inr hquiet, Or.inl rfl⟩, Or.inr (fun _ => rfl), ⟨fun i h => by simp [Fix.none] at h, fun _ _ _ h => h⟩,
      fun _ _ => rfl⟩
-  refine ⟨fun i hm => ?_, fun i hi => C08_no_recall wf hc hs hr i hi rfl⟩
+  refine ⟨fun i hm => ?_, fun i hi => C08_no_recall wf hc hs hr i hi rfl rfl⟩
   have := (C08_resume_equations wf rank hrank hc hs hr hex i hm).2
   simpa [Fix.sym, Fix.none] using this
 
